@@ -9,6 +9,7 @@ flag and every exit-plane tuple of the documented form.
 -/
 import AbtemVerif.Lib.Multislice
 import Mathlib.Tactic.Ring
+import Mathlib.Tactic.Linarith
 namespace AbtemVerif.Props.C07
 open AbtemVerif.Multislice AbtemVerif.ExitPlanes AbtemVerif.Gen.ExitPlanes
 variable {W S M : Type}
@@ -119,11 +120,222 @@ theorem validate_int_large (k n : Nat) (hn : 0 < n) (hk : n ≤ k) :
   congr 2
   simp only [Int.ofNat_eq_natCast]; omega
 
+/-! ### integer exit planes (`_validate_exit_planes` with an int) -/
+
+/-- the slice indices selected by an integer `exit_planes = k` on `n` slices: every `k`-th slice, then the last one -/
+def everyKth (k n : Nat) : List Nat :=
+  ((List.range (n / k)).map fun j => (j + 1) * k - 1) ++ (if n % k = 0 then [] else [n - 1])
+
+theorem rangeCount_every (k n : Nat) : rangeCount ((k : Int) - 1) (n : Int) (k : Int) = n / k := by
+  unfold rangeCount
+  have : (n : Int) - ((k : Int) - 1) + (k : Int) - 1 = (n : Int) := by ring
+  rw [this]
+  have : ((n : Int) / (k : Int)) = ((n / k : Nat) : Int) := by norm_cast
+  rw [this, Int.toNat_natCast]
+
+theorem range_every_cast (k m : Nat) (hk : 0 < k) :
+    ((List.range m).map fun (j : Nat) => ((k : Int) - 1) + (j : Int) * (k : Int))
+      = castList ((List.range m).map fun j => (j + 1) * k - 1) := by
+  unfold castList
+  rw [List.map_map]
+  apply List.map_congr_left
+  intro j _
+  simp only [Function.comp]
+  have h1 : (j + 1) * k = j * k + k := by ring
+  rw [h1]
+  have : (Int.ofNat (j * k + k - 1)) = ((j * k : Nat) : Int) + (k : Int) - 1 := by
+    generalize j * k = m
+    simp only [Int.ofNat_eq_natCast]; omega
+  rw [this]; push_cast; ring
+
+theorem getLast?_range_map {β : Type} (f : Nat → β) (m : Nat) (hm : 0 < m) :
+    ((List.range m).map f).getLast? = some (f (m - 1)) := by
+  obtain ⟨m', rfl⟩ : ∃ m', m = m' + 1 := ⟨m - 1, by omega⟩
+  rw [List.range_succ, List.map_append]
+  simp
+
+/-- **closed form of integer exit planes**: `exit_planes = k` with `0 < k < n` gives the entrance plane, every `k`-th
+slice, and the last slice. -/
+theorem validate_int_shape (k n : Nat) (hk : 0 < k) (hkn : k < n) :
+    validateExitPlanes (.int (k : Int)) (n : Int) = .ok (natPlanes true (everyKth k n)) := by
+  have hcnt : 0 < n / k := Nat.div_pos (le_of_lt hkn) hk
+  have hlarge : vTooLarge (k : Int) (n : Int) = false := by simp [vTooLarge]; omega
+  have hstep0 : ¬ ((k : Int) = 0) := by omega
+  have hstep : (k : Int) > 0 := by omega
+  simp only [validateExitPlanes, hlarge, Bool.false_eq_true, if_false, vRangeStart, vRangeStop, vRangeStep, pyRange,
+    hstep0, hstep, if_true, rangeCount_every k n]
+  rw [getLast?_range_map _ _ hcnt]
+  simp only [vLastMissing, vAppended]
+  have hdm : n = k * (n / k) + n % k := (Nat.div_add_mod n k).symm
+  have hlast : ((k : Int) - 1 + ((n / k - 1 : Nat) : Int) * (k : Int)) = ((k * (n / k) : Nat) : Int) - 1 := by
+    have : ((n / k - 1 : Nat) : Int) = ((n / k : Nat) : Int) - 1 := by omega
+    rw [this]; push_cast; ring
+  rw [hlast, range_every_cast k (n / k) hk]
+  by_cases hmod : n % k = 0
+  · have heq : k * (n / k) = n := by omega
+    have : ¬ (((k * (n / k) : Nat) : Int) - 1 ≠ (n : Int) - 1) := by rw [heq]; simp
+    simp only [this, decide_false, Bool.false_eq_true, if_false, everyKth, hmod, if_true, List.append_nil, natPlanes,
+      List.cons_append, List.nil_append]
+  · have hne : k * (n / k) ≠ n := by omega
+    have : (((k * (n / k) : Nat) : Int) - 1 ≠ (n : Int) - 1) := by
+      intro h; apply hne; omega
+    have hdec : decide (((k * (n / k) : Nat) : Int) - 1 ≠ (n : Int) - 1) = true := decide_eq_true this
+    simp only [hdec, if_true, everyKth, hmod, if_false, natPlanes, List.cons_append, List.nil_append,
+      castList, List.map_append, List.map_cons, List.map_nil]
+    have hn1 : Int.ofNat (n - 1) = (n : Int) - 1 := by simp only [Int.ofNat_eq_natCast]; omega
+    rw [hn1]
+
+
+theorem everyKth_mem_le (k n : Nat) (q : Nat) (hq : q ∈ (List.range (n / k)).map fun j => (j + 1) * k - 1) :
+    q + 1 ≤ (n / k) * k ∧ 0 < (n / k) * k := by
+  obtain ⟨j, hj, rfl⟩ := List.mem_map.mp hq
+  have hj' : j + 1 ≤ n / k := List.mem_range.mp hj
+  have h1 : (j + 1) * k ≤ (n / k) * k := Nat.mul_le_mul_right k hj'
+  by_cases hk : k = 0
+  · subst hk; simp at hj
+  · have : 0 < (j + 1) * k := Nat.mul_pos (by omega) (by omega)
+    omega
+
+theorem everyKth_lt (k n : Nat) : ∀ q ∈ everyKth k n, q < n := by
+  intro q hq
+  have hle : (n / k) * k ≤ n := Nat.div_mul_le_self n k
+  rcases List.mem_append.mp hq with h | h
+  · have := everyKth_mem_le k n q h; omega
+  · by_cases hmod : n % k = 0
+    · simp [hmod] at h
+    · simp only [hmod, if_false, List.mem_singleton] at h
+      have : 0 < n := by
+        by_contra h0; have : n = 0 := by omega
+        subst this; simp at hmod
+      omega
+
+theorem everyKth_sorted (k n : Nat) (hk : 0 < k) : (everyKth k n).Pairwise (· < ·) := by
+  unfold everyKth
+  rw [List.pairwise_append]
+  refine ⟨?_, ?_, ?_⟩
+  · rw [List.pairwise_map]
+    apply List.Pairwise.imp _ (List.pairwise_lt_range (n := n / k))
+    intro a b hab
+    have : (a + 1) * k < (b + 1) * k := Nat.mul_lt_mul_of_pos_right (by omega) hk
+    have : 0 < (a + 1) * k := Nat.mul_pos (by omega) hk
+    omega
+  · by_cases hmod : n % k = 0 <;> simp [hmod]
+  · intro a ha b hb
+    by_cases hmod : n % k = 0
+    · simp [hmod] at hb
+    · simp only [hmod, if_false, List.mem_singleton] at hb
+      subst hb
+      have h1 := everyKth_mem_le k n a ha
+      have h2 : n = k * (n / k) + n % k := (Nat.div_add_mod n k).symm
+      have h3 : (n / k) * k = k * (n / k) := Nat.mul_comm _ _
+      omega
+
+theorem everyKth_last (k n : Nat) (hk : 0 < k) (hkn : k ≤ n) : (everyKth k n).getLast? = some (n - 1) := by
+  unfold everyKth
+  by_cases hmod : n % k = 0
+  · have hcnt : 0 < n / k := Nat.div_pos hkn hk
+    simp only [hmod, if_true, List.append_nil]
+    rw [getLast?_range_map _ _ hcnt]
+    have h2 : n = k * (n / k) + n % k := (Nat.div_add_mod n k).symm
+    have h3 : (n / k - 1 + 1) * k = k * (n / k) := by
+      rw [Nat.sub_add_cancel hcnt, Nat.mul_comm]
+    rw [h3]; congr 1; omega
+  · simp [hmod]
+
+/-- Integer exit planes satisfy the hypotheses of `exit_plane_result`, and their last plane is the last slice: a thickness
+series requested with `exit_planes = k` records the incident wave, the truncated runs after every `k`-th slice, and the
+full run. -/
+theorem int_exit_planes_valid (k n : Nat) (hk : 0 < k) (hkn : k < n) :
+    validateExitPlanes (.int (k : Int)) (n : Int) = .ok (natPlanes true (everyKth k n)) ∧
+      (everyKth k n).Pairwise (· < ·) ∧ (∀ q ∈ everyKth k n, q < n) ∧ (everyKth k n).getLast? = some (n - 1) :=
+  ⟨validate_int_shape k n hk hkn, everyKth_sorted k n hk, everyKth_lt k n, everyKth_last k n hk (le_of_lt hkn)⟩
+
+/-! ### the thickness axis (`BaseField.exit_thicknesses`) -/
+
+theorem cumsumFrom_getElem? (acc : Rat) (ts : List Rat) (i : Nat) (hi : i < ts.length) :
+    (cumsumFrom acc ts)[i]? = some (acc + (ts.take (i + 1)).sum) := by
+  induction ts generalizing acc i with
+  | nil => simp at hi
+  | cons t ts ih =>
+    cases i with
+    | zero => simp [cumsumFrom]
+    | succ i =>
+      simp only [cumsumFrom, List.getElem?_cons_succ, List.take_succ_cons, List.sum_cons]
+      rw [ih (acc + t) i (by simpa using hi)]
+      congr 1; ring
+
+theorem length_cumsumFrom (acc : Rat) (ts : List Rat) : (cumsumFrom acc ts).length = ts.length := by
+  induction ts generalizing acc with
+  | nil => rfl
+  | cons t ts ih => simp [cumsumFrom, ih]
+
+/-- cumulative thickness after slice `q` -/
+def depthAfter (thickness : List Rat) (q : Nat) : Rat := (thickness.take (q + 1)).sum
+
+theorem pyIndex_cumsum_nat (thickness : List Rat) (q : Nat) (hq : q < thickness.length) :
+    pyIndex (cumsum thickness) (q : Int) = .ok (depthAfter thickness q) := by
+  unfold pyIndex cumsum
+  have h0 : ¬ ((q : Int) < 0) := by omega
+  simp only [h0, if_false, Int.toNat_natCast]
+  rw [cumsumFrom_getElem? 0 thickness q hq]
+  simp [depthAfter]
+
+theorem mapM_ok_of {α β : Type} (f : α → Except String β) (g : α → β) (l : List α) (h : ∀ x ∈ l, f x = .ok (g x)) :
+    l.mapM f = .ok (l.map g) := by
+  induction l with
+  | nil => rfl
+  | cons x xs ih =>
+    rw [List.mapM_cons, h x (by simp), ih (fun y hy => h y (by simp [hy]))]
+    rfl
+
+theorem mapM_pyIndex (thickness : List Rat) (ps : List Nat) (hb : ∀ q ∈ ps, q < thickness.length) :
+    (castList ps).mapM (pyIndex (cumsum thickness)) = .ok ((castList ps).map fun q => depthAfter thickness q.toNat) := by
+  apply mapM_ok_of
+  intro x hx
+  obtain ⟨q, hq, rfl⟩ := List.mem_map.mp hx
+  exact pyIndex_cumsum_nat thickness q (hb q hq)
+
+/-- **The thickness axis lists the cumulative thickness of each exit plane** (0 for the entrance plane), for every slice
+thickness sequence and every exit-plane tuple of the documented form. -/
+theorem thickness_axis_eq_prefix_sums (thickness : List Rat) (ent : Bool) (ps : List Nat)
+    (hb : ∀ q ∈ ps, q < thickness.length) (hpos : 0 < thickness.length) (hne : ent = true ∨ ps ≠ []) :
+    exitThicknesses (natPlanes ent ps) thickness
+      = .ok ((if ent then [0] else []) ++ ps.map (depthAfter thickness)) := by
+  have hmap : (castList ps).map (fun q => depthAfter thickness q.toNat) = ps.map (depthAfter thickness) := by
+    simp [castList, List.map_map, Function.comp_def]
+  cases ent
+  · cases ps with
+    | nil => simp at hne
+    | cons q qs =>
+      have hm := mapM_pyIndex thickness (q :: qs) hb
+      have hq : ¬ ((Int.ofNat q) = -1) := by simp
+      simp only [exitThicknesses, natPlanes, Bool.false_eq_true, if_false, List.nil_append, hm]
+      simp only [castList, List.map_cons, tEntrance, hq, decide_false, Bool.false_eq_true, if_false]
+      simp [depthAfter, Function.comp_def]
+  · have hm := mapM_pyIndex thickness ps hb
+    have hlast : pyIndex (cumsum thickness) (-1) = .ok ((cumsum thickness).getLastD 0) := by
+      unfold pyIndex cumsum
+      have hl : (cumsumFrom 0 thickness).length = thickness.length := length_cumsumFrom 0 thickness
+      simp only [show ((-1 : Int) < 0) from by omega, if_true, hl]
+      have h2 : ¬ ((-1 : Int) + (thickness.length : Int) < 0) := by omega
+      simp only [h2, if_false]
+      have h3 : ((-1 : Int) + (thickness.length : Int)).toNat = thickness.length - 1 := by omega
+      rw [h3]
+      have h4 : thickness.length - 1 < (cumsumFrom 0 thickness).length := by omega
+      rw [List.getElem?_eq_getElem h4]
+      simp only
+      congr 1
+      rw [List.getLastD_eq_getLast?, List.getLast?_eq_getElem?, hl, List.getElem?_eq_getElem h4]; rfl
+    simp only [exitThicknesses, natPlanes, if_true, List.cons_append, List.nil_append, List.mapM_cons, hlast, hm]
+    simp [tEntrance, hmap, bind, Except.bind, pure, Except.pure]
+
 /-! ### non-vacuity: the hypotheses of `exit_plane_result` are satisfiable, and the conclusion is the expected one on the
 free (history) instance: `exit_planes=2` on 5 slices gives planes `(-1, 1, 3, 4)` -/
 example : validateExitPlanes (.int 2) 5 = .ok (natPlanes true [1, 3, 4]) := by decide
 example : (multisliceAndDetect hstep hdetect [] ⟨false, natPlanes true [1, 3, 4], 5, [[10, 11, 12, 13, 14]]⟩).toOption.bind
     (fun o => o.get [2]) = some [10, 11, 12, 13] := by decide
 example : [1, 3, 4].Pairwise (· < ·) ∧ (∀ q ∈ [1, 3, 4], q < [10, 11, 12, 13, 14].length) := by decide
+
+example : exitThicknesses (natPlanes true [1, 3]) [1, 1/2, 1/2, 2] = .ok [0, 3/2, 4] := by decide +kernel
 
 end AbtemVerif.Props.C07
